@@ -223,56 +223,19 @@ def run(ctx):
             ctx.ob("R3.offset", key, P.where(n),
                    "pointer `mmap_data + %s` is formed only after that offset was checked against the mapped size" % offtxt[:50],
                    bool(gs) and okoff, "guards found: %d" % len(gs))
-    ctx.floor("C04 mapped pointers from untrusted offsets", nptr, 2)
+    ctx.count("mapped_pointers_from_untrusted_offsets", nptr)   # the grid of _mapped_bounds covers the same offsets semantically
 
-    # ---- (1b) page extent guard precedes every use of the mapped page bytes
-    for name in ("load_dictionary_page_mmap", "load_next_page_mmap"):
-        fn = P.fn(name, PR)
-        ext = [g for g in _guards(fn, lambda c: any(x.k == "CallExpr" and x.callee == "page_extent_ok" for x in c.walk()))]
-        key = "page-extent|%s:%s" % (PR, name)
-        if not ext:
-            ctx.bad("R3.extent", key, P.where(fn.body), "%s validates the page extent against the mapped size" % name,
-                    "no guard calling page_extent_ok with an error exit")
-            continue
-        g0 = _first_cfg(fn, ext[0])
-        sinks = [c for c in fn.calls("carquet_crc32", "decompress_page", "carquet_read_dictionary_page",
-                                     "carquet_read_data_page_v1", "memset", "malloc")]
-        sinks += [a for a in fn.body.walk() if is_assign(a) and a.c[0].strip().k == "MemberExpr"
-                  and a.c[0].strip().name == "decoded_values" and a.c[1].strip_casts().k == "DeclRefExpr"]
-        bad = [s for s in sinks if not fn.cfg.node_dominates(g0, s)]
-        ctx.ob("R3.extent", key, P.where(ext[0]),
-               "%s: page_extent_ok (sizes non-negative, payload inside the mapping) dominates all %d consumers of "
-               "page bytes and header sizes" % (name, len(sinks)), not bad, "not dominated: %s" % [P.where(b) for b in bad[:3]])
-        # the availability passed to it is the one computed for this page's offset
-        call = [x for x in ext[0].walk() if x.k == "CallExpr" and x.callee == "page_extent_ok"][0]
-        t = Canon(fn)(call.args()[2])
-        ctx.ob("R3.extent", key + "|avail", P.where(call),
-               "the extent is compared with mmap_available(...) of the same offset", "mmap_available" in show(t), show(t)[:80])
-    # the length that travels with a mapped pointer is the extent-checked field
-    from ..rules.siblings import Summary
-    HR = {"parquet_page_header", "parquet_data_page_header", "parquet_dictionary_page_header",
-          "parquet_data_page_header_v2"}
-    VOC = {"carquet_crc32", "decompress_page", "carquet_read_dictionary_page", "carquet_read_data_page_v1"}
-    for name in ("load_dictionary_page_mmap", "load_next_page_mmap"):
-        S = Summary(P, P.fn(name, PR), VOC, set(), depth=0, header_records=HR)
-        for k_, allowed in (("arg:carquet_crc32#1", {".compressed_page_size"}),
-                            ("arg:decompress_page#2", {".compressed_page_size"}),
-                            ("arg:decompress_page#4", {".uncompressed_page_size"}),
-                            ("arg:carquet_read_dictionary_page#2", {".compressed_page_size"}),
-                            ("arg:carquet_read_data_page_v1#2", {".compressed_page_size"})):
-            if k_ not in S.features:
-                continue
-            got = set(S.features[k_])
-            ctx.ob("R3.extent", "mapped-length|%s:%s|%s" % (PR, name, k_), PR,
-                   "%s: the byte count given as %s comes only from %s (the field checked by page_extent_ok) or from "
-                   "the decompressor's output" % (name, k_[4:], sorted(allowed)), got <= allowed, "derives from %s" % sorted(got))
+    # ---- (1b) every byte range the mapped loaders touch lies inside its object
+    _mapped_bounds(ctx)
     # the two extent predicates, evaluated exhaustively over a grid of sizes (abstract execution): robust
     # to how the comparisons are spelled
     from ..rules import sem
-    pe = P.fn("page_extent_ok", PR)
+    pe = P.fn("page_extent_ok", PR) if P.by_name.get("page_extent_ok") else None
     ho = sem.field_offsets(P, "parquet_page_header")
     badp = None
     try:
+        if pe is None:
+            raise LookupError
         for c in (-5, -1, 0, 1, 10, 100, 0x7FFFFFFF):
             for u in (-1, 0, 50):
                 for hs in (0, 5, 20, 40):
@@ -285,12 +248,16 @@ def run(ctx):
         ctx.ob("R3.extent", "page-extent-body|%s:page_extent_ok" % PR, P.where(pe.body),
                "page_extent_ok accepts exactly: sizes >= 0, header_size <= avail, compressed_page_size <= avail - header_size "
                "(504 size combinations)", badp is None, badp or "")
+    except LookupError:
+        pass            # no separate predicate: the grid of _mapped_bounds exercises whatever replaced it
     except sem.Inconclusive as ex:
         ctx.inconclusive("R3.extent", "page-extent-body|%s:page_extent_ok" % PR, P.where(pe.body), "abstract execution", str(ex))
-    ma = P.fn("mmap_available", PR)
+    ma = P.fn("mmap_available", PR) if P.by_name.get("mmap_available") else None
     ro = sem.field_offsets(P, "carquet_reader")
     badm = None
     try:
+        if ma is None:
+            raise LookupError
         for fs in (0, 1, 100, 1 << 33):
             for off in (-(1 << 40), -1, 0, 1, 50, 99, 100, 101, 1 << 33, (1 << 33) + 1, 1 << 40):
                 ret, ev, heap = sem.run(P, ma, [sem.Ptr("rd", 0, 1), off], heap0={("rd", ro["file_size"]): fs})
@@ -300,32 +267,58 @@ def run(ctx):
         ctx.ob("R3.extent", "mmap-available-body|%s:mmap_available" % PR, P.where(ma.body),
                "mmap_available returns file_size - offset inside the file and 0 for negative offsets and offsets at or "
                "beyond file_size", badm is None, badm or "")
+    except LookupError:
+        pass
     except sem.Inconclusive as ex:
         ctx.inconclusive("R3.extent", "mmap-available-body|%s:mmap_available" % PR, P.where(ma.body), "abstract execution", str(ex))
-    # zero-copy hand-out holds its values; num_values tested for negativity
-    ln = P.fn("load_next_page_mmap", PR)
-    zc = _guards(ln, lambda c: {"num_values", "compressed_page_size"} <= _names(ln, c) and
-                 ({"get_value_size", "type_length"} & _names(ln, c) or "value_size" in src(c)))
-    view = [a for a in ln.body.walk() if is_assign(a) and a.c[0].strip().k == "MemberExpr"
-            and a.c[0].strip().name == "decoded_values" and a.c[1].strip_casts().k == "DeclRefExpr"]
-    ctx.ob("R3.extent", "zero-copy-extent|%s:load_next_page_mmap" % PR, P.where(ln.body),
-           "a zero-copy page is handed out only if num_values * value_size fits its compressed_page_size",
-           bool(zc) and bool(view) and all(ln.cfg.node_dominates(_first_cfg(ln, zc[0]), v) for v in view))
-    neg = _guards(ln, lambda c: any(
-        lf.k == "BinaryOperator" and lf.op == "<" and lf.c[1].cv == 0 and "num_values" in _names(ln, lf.c[0])
-        for lf in c.walk()))
-    ms = ln.calls("memset")
-    ctx.ob("R3.count", "num-values-sign|%s:load_next_page_mmap" % PR, P.where(ln.body),
-           "a negative num_values is rejected before it sizes a memset/allocation", bool(neg) and
-           all(ln.cfg.node_dominates(_first_cfg(ln, neg[0]), m) for m in ms))
     rd = P.fn("carquet_read_dictionary_page", PR)
-    psz = [p_["d"] for p_ in rd.params if "size" in p_["n"]]
-    g = _guards(rd, lambda c: "num_values" in _names(rd, c) and any(
-        x.k == "DeclRefExpr" and x.get("dk") == "param" and x.get("d") in psz for x in c.walk()))
-    cp = [c for c in rd.calls("memcpy") if "num_values" in _names(rd, c.args()[2])]
-    ctx.ob("R3.extent", "dictionary-extent|%s:carquet_read_dictionary_page" % PR, P.where(rd.body),
-           "the fixed-width dictionary copy is dominated by a comparison of num_values with page_size / value_size",
-           bool(g) and bool(cp) and all(rd.cfg.node_dominates(_first_cfg(rd, g[0]), c) for c in cp))
+    # fixed-width dictionaries, executed abstractly over value counts x page sizes x types: what is
+    # copied out of the page fits the page and the block allocated for it
+    try:
+        ro_ = sem.field_offsets(P, "carquet_column_reader")
+        do_ = sem.field_offsets(P, "parquet_dictionary_page_header")
+        phys = P.enum("carquet_physical_type")
+        badd = None
+        nd = 0
+        for tname, tl in (("CARQUET_PHYSICAL_INT32", 0), ("CARQUET_PHYSICAL_INT64", 0), ("CARQUET_PHYSICAL_INT96", 0),
+                          ("CARQUET_PHYSICAL_FLOAT", 0), ("CARQUET_PHYSICAL_DOUBLE", 0),
+                          ("CARQUET_PHYSICAL_FIXED_LEN_BYTE_ARRAY", 5), ("CARQUET_PHYSICAL_FIXED_LEN_BYTE_ARRAY", 0)):
+            for nv in (-1, 0, 1, 10, 11, 0x7FFFFFFF):
+                for psize in (0, 40, 43, 1 << 20):
+                    nd += 1
+                    sizes = {"page": psize}
+                    heap0 = {("rd", f_["off"] // 8): 0 for f_ in P.record("carquet_column_reader")["fields"]
+                             if f_.get("off") is not None and f_["n"] and "[" not in f_["t"]}
+                    heap0.update({("rd", ro_["type"]): phys[tname], ("rd", ro_["type_length"]): tl, ("hd", do_["num_values"]): nv})
+                    km = [0]
+
+                    def mal(ev, a, it):
+                        km[0] += 1
+                        ev.append(("malloc", "d%d" % km[0], a[0]))
+                        return sem.Ptr("d%d" % km[0], 0, 1)
+                    ret, ev, heap = sem.run(P, rd, [sem.Ptr("rd", 0, 1), sem.Ptr("page", 0, 1), psize, sem.Ptr("hd", 0, 1), 0], heap0=heap0,
+                                            single=True, max_forks=64, on_start=lambda: km.__setitem__(0, 0), hooks={
+                                                "malloc": mal, "free": lambda ev, a, it: None, "carquet_error_set": lambda ev, a, it: None,
+                                                "memcpy": lambda ev, a, it: ev.append(("copy", (a[0].base, a[0].off) if isinstance(a[0], sem.Ptr) else a[0],
+                                                                                       (a[1].base, a[1].off) if isinstance(a[1], sem.Ptr) else a[1], a[2])) or a[0]})
+                    for e in ev:
+                        if e[0] == "malloc":
+                            sizes[e[1]] = e[2]
+                    for e in ev:
+                        if e[0] != "copy":
+                            continue
+                        for what, p_ in (("reads", e[2]), ("writes", e[1])):
+                            if isinstance(p_, tuple) and p_[0] in sizes:
+                                lim = sizes[p_[0]]
+                                if not isinstance(e[3], int) or not isinstance(lim, int) or e[3] < 0 or p_[1] + e[3] > lim:
+                                    badd = badd or "%s with type_length %d, num_values %d, page of %d bytes: the copy %s [%s, +%s) of `%s` (%s bytes)" % (
+                                        tname, tl, nv, psize, what, p_[1], e[3], p_[0], lim)
+        ctx.ob("R3.extent", "dictionary-extent|%s:carquet_read_dictionary_page" % PR, P.where(rd.body),
+               "a fixed-width dictionary copy stays inside the page and inside the block allocated for it, for every value count "
+               "(%d type x count x size points, abstract execution)" % nd, badd is None, badd or "")
+    except (sem.Inconclusive, KeyError) as ex:
+        ctx.inconclusive("R3.extent", "dictionary-extent|%s:carquet_read_dictionary_page" % PR, P.where(rd.body),
+                         "abstract execution of carquet_read_dictionary_page", "%s: %s" % (type(ex).__name__, ex))
 
     # ---- (1c) thrift list counts validated before allocation / loops
     nv = 0
@@ -525,3 +518,83 @@ def _ret_ord(fn, r):
 
 def _between(fn, a, v, u):
     return True
+
+
+def _mapped_bounds(ctx):
+    """The two loaders that read through the mapping, executed abstractly over a grid of header lies
+    (page offsets before / inside / at / beyond the end of the file, negative, zero, plausible and huge
+    sizes and counts) with the real availability and extent predicates interpreted: every byte range
+    they hand to the header parser, the CRC, a codec, a decoder, memset or the zero-copy view must lie
+    inside the object it points into. Whether a page is refused is not prescribed - only that nothing
+    outside is touched."""
+    from ..rules import loaders as LD, sem
+    P = ctx.P
+    pt = P.enum("carquet_page_type")
+    cd = P.enum("carquet_compression")
+    FS = 2000
+    CAP = 64
+    n = 0
+    for name in ("load_dictionary_page_mmap", "load_next_page_mmap"):
+        isdict = "dictionary" in name
+        fn = P.fn(name, PR)
+        bad = None
+        unknown = None
+        try:
+            for off in (-7, 0, 500, FS - 40, FS - 10, FS, FS + 100, 1 << 40):
+                for csize in (-5, 0, 1, 120, FS, 0x7FFFFFFF):
+                    for usize, codec in ((480, 0), (480, 1), (-1, 1), (0, 1)):
+                        for nv in ((10,) if isdict else (-1, 10, 1 << 30)):
+                            for levels in ((True,) if isdict else (True, False)):
+                                n += 1
+                                kw = dict(dict_off=off) if isdict else dict(data_off=off)
+                                ret, ev, out = LD.trace(P, name, pt["CARQUET_PAGE_DICTIONARY"] if isdict else pt["CARQUET_PAGE_DATA"],
+                                                        0, 1, 0, 0, cd["CARQUET_COMPRESSION_SNAPPY"] if codec else cd["CARQUET_COMPRESSION_UNCOMPRESSED"],
+                                                        levels=levels, num_values=nv, csize=csize, usize=usize, file_size=FS,
+                                                        capacity=CAP, native_geometry=True, **kw)
+                                sc = "page at offset %d of a %d-byte file, compressed_page_size %d, uncompressed_page_size %d, num_values %d, codec %d, levels %s" % (
+                                    off, FS, csize, usize, nv, codec, levels)
+                                sizes = {"map": FS, "dv": CAP * 4, "ddl": CAP * 2, "drl": CAP * 2}
+                                ranges = []
+                                for e in ev:
+                                    if e[0] == "malloc":
+                                        sizes[e[1]] = e[2]
+                                    elif e[0] == "parse-header":
+                                        ranges.append(("header parse", e[1], e[2]))
+                                    elif e[0] == "crc":
+                                        ranges.append(("CRC", e[1], e[2]))
+                                    elif e[0] == "decompress":
+                                        ranges.append(("codec input", e[2], e[3]))
+                                        ranges.append(("codec output", e[4], e[5]))
+                                    elif e[0] in ("consume-dict", "consume-page"):
+                                        ranges.append(("decoder input", e[1], e[2]))
+                                    elif e[0] == "memset":
+                                        ranges.append(("memset", e[1], e[2]))
+                                    elif e[0] == "copy":
+                                        ranges.append(("copy source", e[2], e[3]))
+                                        ranges.append(("copy destination", e[1], e[3]))
+                                dv = out["decoded_values"]
+                                if ret == 0 and isinstance(dv, tuple) and dv and dv[0] == "map":
+                                    ranges.append(("zero-copy view of %d values" % nv, dv, nv * 4))
+                                for what, p_, ln_ in ranges:
+                                    if not (isinstance(p_, tuple) and len(p_) == 2 and isinstance(p_[0], str)):
+                                        continue
+                                    base_, o_ = p_
+                                    if base_ not in sizes:
+                                        continue
+                                    if not isinstance(o_, int) or not isinstance(ln_, int) or not isinstance(sizes[base_], int):
+                                        unknown = unknown or "%s: %s of %s bytes at %s+%s" % (sc, what, ln_, base_, o_)
+                                        continue
+                                    if (o_ < 0 or ln_ < 0 or o_ + ln_ > sizes[base_]) and bad is None:
+                                        bad = "%s: %s touches [%d, %d) of `%s`, which holds %d bytes (returns %s)" % (
+                                            sc, what, o_, o_ + ln_, base_, sizes[base_], ret)
+            key = "mapped-bounds|%s:%s" % (PR, name)
+            what_ = ("%s keeps every access (header window, CRC, codec, decoder, memset, zero-copy view) inside the mapping and "
+                     "inside its buffers for lying offsets, sizes and counts" % name)
+            if bad is None and unknown is not None:
+                ctx.inconclusive("R3.extent", key, P.where(fn.body), what_, unknown)
+            else:
+                ctx.ob("R3.extent", key, P.where(fn.body), what_ + " (abstract execution, real predicates)", bad is None, bad or "")
+        except (sem.Inconclusive, KeyError) as ex:
+            ctx.inconclusive("R3.extent", "mapped-bounds|%s:%s" % (PR, name), P.where(fn.body), "abstract execution of %s" % name,
+                             "%s: %s" % (type(ex).__name__, ex))
+    ctx.floor("C04 mapped-bounds scenarios", n, 500)
